@@ -14,7 +14,7 @@ use wire::*;
 use wtransport::endpoint::ConnectOptions;
 use wtransport::error::ConnectingError;
 
-pub const RULE: &str = "case = runtime flavour x URL from normal-form components (host in {127.0.0.1, [::1], generated domains and punycode labels resolved by a harness DnsResolver}, default or explicit port, 0..6 path segments over unreserved / sub-delims / pct-encoded characters, optional query, optional fragment) x 0..12 additional header fields (names: QPACK static-table names and generated tokens with lengths across the 3-bit prefix boundary; values: static-table exact values, visible ASCII with inner SP/HTAB, non-ASCII UTF-8, Huffman-shrinking and non-shrinking strings, lengths 0..2000, whole section < 4096 bytes) x server decision in {accept, accept_with_headers(extra fields), forbidden, not_found, too_many_requests}; variants: wtransport<->wtransport, raw server answering generated 2xx / non-2xx statuses with extra fields, raw client encoding the request with the reference QPACK encoder under generated representation choices. Oracle: the server application sees exactly authority (port elided iff 443), path-with-query, the five fixed pseudo-fields and every additional field, nothing else; connect is Ok iff accepted, SessionRejected iff non-2xx; both ends report the session id of the CONNECT stream. Non-trivial: >= 1 additional header or non-root path or a rejecting decision; distinct = distinct case";
+pub const RULE: &str = "case = runtime flavour x URL from normal-form components (host in {127.0.0.1, [::1], generated domains and punycode labels resolved by a harness DnsResolver}, default or explicit port, 0..6 path segments over unreserved / sub-delims / pct-encoded characters, optional query, optional fragment) x 0..12 additional header fields (names: QPACK static-table names and generated tokens with lengths across the 3-bit prefix boundary; values: static-table exact values, visible ASCII with inner SP/HTAB, non-ASCII UTF-8, Huffman-shrinking and non-shrinking strings, lengths 0..2000, whole section < 4096 bytes) x server decision in {accept, accept_with_headers(extra fields), forbidden, not_found, too_many_requests}; variants: wtransport<->wtransport, raw server answering generated 2xx / non-2xx statuses with extra fields, raw client encoding the request with the reference QPACK encoder under generated representation choices; per-stream receive window of both endpoints in {default, 32..300 bytes, but at least 1/30 of the field section} (HEADERS frames written and read across flow-control boundaries). Oracle: the server application sees exactly authority (port elided iff 443), path-with-query, the five fixed pseudo-fields and every additional field, nothing else; connect is Ok iff accepted, SessionRejected iff non-2xx; both ends report the session id of the CONNECT stream. Non-trivial: >= 1 additional header or non-root path or a rejecting decision; distinct = distinct case";
 
 #[derive(Clone, Debug, Serialize, Deserialize, PartialEq)]
 pub enum Decision {
@@ -43,6 +43,16 @@ pub struct Case {
     pub status: u16,
     /// variant 2: reference encoder options per field
     pub enc: Vec<(u8, bool, bool, u8, bool)>,
+    /// per-stream receive window (bytes) both endpoints advertise; 0 = the library's / transport's
+    /// default. Small values make the HEADERS frames travel across many flow-control boundaries
+    /// (partial writes on the sending side, many small reads on the receiving side).
+    #[serde(default)]
+    pub window: u16,
+}
+
+/// Transport tuning for the case's window.
+pub fn tuning_of(case: &Case) -> Tuning {
+    Tuning { stream_receive_window: if case.window > 0 { Some(case.window as u32) } else { None }, ..Default::default() }
 }
 
 pub fn header_name() -> impl Strategy<Value = String> {
@@ -126,9 +136,19 @@ pub fn case_strategy() -> impl Strategy<Value = Case> {
         headers_strategy(12),
         decision,
         prop_oneof![Just(200u16), Just(204), Just(299), Just(300), Just(199), Just(403), Just(404), Just(429), Just(500), Just(599), 200u16..300, 300u16..600],
-        proptest::collection::vec((0u8..3, any::<bool>(), any::<bool>(), any::<u8>(), any::<bool>()), 17),
+        (proptest::collection::vec((0u8..3, any::<bool>(), any::<bool>(), any::<u8>(), any::<bool>()), 17), prop_oneof![4 => Just(0u16), 2 => Just(32u16), 1 => Just(40), 1 => 32u16..300]),
     )
-        .prop_map(|((flavor, variant, host_kind), domain, explicit_port, path, query, fragment, headers, decision, status, enc)| Case { flavor, variant, host_kind, domain, explicit_port, path, query, fragment, headers, decision, status, enc })
+        .prop_map(|((flavor, variant, host_kind), domain, explicit_port, path, query, fragment, headers, decision, status, (enc, window))| {
+            // every window update costs a round trip: keep the number of flow-control boundaries
+            // a HEADERS frame crosses bounded (<= ~30) by scaling the window with the section size
+            let section: usize = 120 + path.len() + headers.iter().map(|(k, v)| k.len() + v.len() + 4).sum::<usize>();
+            // and never below 32 bytes: each endpoint writes its whole control-stream opening
+            // (25 bytes) before it starts reading the peer's, so two endpoints that both advertise
+            // a smaller window wait for each other forever — no listed property covers such
+            // transport limits, therefore the generator stays inside the working range
+            let window = if window == 0 { 0 } else { window.max(32).max((section / 30 + 1) as u16) };
+            Case { flavor, variant, host_kind, domain, explicit_port, path, query, fragment, headers, decision, status, enc, window }
+        })
 }
 
 #[derive(Debug)]
@@ -181,9 +201,19 @@ fn bind_addr(case: &Case) -> SocketAddr {
 }
 
 pub fn wt_client_for(addr: SocketAddr) -> wtransport::Endpoint<wtransport::endpoint::endpoint_side::Client> {
+    wt_client_for_window(addr, 0)
+}
+
+/// Client resolving every host name to `addr`; `window` > 0 installs a transport with that
+/// per-stream receive window, 0 keeps the library's default transport.
+pub fn wt_client_for_window(addr: SocketAddr, window: u16) -> wtransport::Endpoint<wtransport::endpoint::endpoint_side::Client> {
     let bind: SocketAddr = if addr.is_ipv6() { "[::1]:0".parse().unwrap() } else { "127.0.0.1:0".parse().unwrap() };
     let mut cfg = wtransport::ClientConfig::builder().with_bind_address(bind).with_no_cert_validation().build();
     cfg.set_dns_resolver(FixedResolver(addr));
+    if window > 0 {
+        let t = Tuning { stream_receive_window: Some(window as u32), ..Default::default() };
+        cfg.quic_config_mut().transport_config(Arc::new(wire::transport(&t)));
+    }
     wtransport::Endpoint::client(cfg).expect("client endpoint")
 }
 
@@ -227,10 +257,10 @@ fn check_seen(case: &Case, seen: &Seen, authority: &str, path: &str) -> Result<(
 }
 
 async fn exec_wt_wt(case: Arc<Case>) -> CaseResult {
-    let server_ep = wt_server_at(bind_addr(&case), &Tuning::default());
+    let server_ep = wt_server_at(bind_addr(&case), &tuning_of(&case));
     let addr = server_ep.local_addr().unwrap();
     let (url, authority, path) = url_of(&case, addr);
-    let client_ep = wt_client_for(addr);
+    let client_ep = wt_client_for_window(addr, case.window);
     let decision = case.decision.clone();
     let serve = async {
         let incoming = server_ep.accept().await;
@@ -317,14 +347,14 @@ fn host_label(c: &Case) -> &'static str {
 
 /// wtransport client against a raw server answering `status` (+ extra fields).
 async fn exec_raw_server(case: Arc<Case>) -> CaseResult {
-    let (raw_ep, addr) = match raw_server(&Tuning::default()) {
+    let (raw_ep, addr) = match raw_server(&tuning_of(&case)) {
         Ok(x) => x,
         Err(e) => return CaseResult::Skip(e),
     };
     let mut c2 = (*case).clone();
     c2.host_kind = if case.host_kind % 3 == 1 { 2 } else { case.host_kind }; // the raw server listens on IPv4
     let (url, authority, path) = url_of(&c2, addr);
-    let client_ep = wt_client_for(addr);
+    let client_ep = wt_client_for_window(addr, case.window);
     let extra = match &case.decision {
         Decision::AcceptWithHeaders(h) => h.clone(),
         _ => vec![],
@@ -372,7 +402,7 @@ async fn exec_raw_server(case: Arc<Case>) -> CaseResult {
 
 /// Raw client (reference QPACK encoder, generated representations) against the wtransport server.
 async fn exec_raw_client(case: Arc<Case>) -> CaseResult {
-    let server_ep = wt_server(&Tuning::default());
+    let server_ep = wt_server(&tuning_of(&case));
     let addr = server_ep.local_addr().unwrap();
     let mut c2 = (*case).clone();
     c2.host_kind = if case.host_kind % 3 == 1 { 2 } else { case.host_kind };
@@ -420,7 +450,7 @@ async fn exec_raw_client(case: Arc<Case>) -> CaseResult {
         })
         .collect();
     let client = async {
-        let (ep, conn) = raw_connect(addr, &Tuning::default()).await?;
+        let (ep, conn) = raw_connect(addr, &tuning_of(&case)).await?;
         let control = open_control(&conn, &default_settings()).await?;
         let (mut rs, mut rr) = conn.open_bi().await.map_err(|e| e.to_string())?;
         let sid = quinn::VarInt::from(rs.id()).into_inner();
